@@ -40,7 +40,8 @@ func headerGetExact(h http.Header, key string) string {
 // 1. Takes an io.Reader instead of an io.ReaderSeeker
 // 2. Requires the size to be passed in explicitly instead of discovered via Seeker behavior
 // 3. Only handles a single HTTP Range, if multiple are requested it returns the first
-// 4. The passed io.Reader must start at wherever the HTTP Range Request will start
+// 4. The passed io.Reader must start at the first range listed in the Range header (see seekToRangeStart);
+//    if the bytes that end up being sent start elsewhere the reader is repositioned here
 // 4. Requires the Content-Type header to already be set
 // 5. Does not require the name to be passed in for content sniffing
 // 6. content may be nil for HEAD requests
@@ -61,6 +62,7 @@ func httpServeContent(w http.ResponseWriter, r *http.Request, modtime time.Time,
 
 	// handle Content-Range header.
 	sendSize := size
+	sendStart := int64(0)
 	ranges, err := parseRange(rangeReq, size)
 	switch err {
 	case nil:
@@ -102,6 +104,7 @@ func httpServeContent(w http.ResponseWriter, r *http.Request, modtime time.Time,
 		// does not request multiple parts might not support
 		// multipart responses."
 
+		sendStart = ra.start
 		sendSize = ra.length
 		code = http.StatusPartialContent
 		w.Header().Set("Content-Range", ra.contentRange(size))
@@ -117,11 +120,46 @@ func httpServeContent(w http.ResponseWriter, r *http.Request, modtime time.Time,
 		delete(w.Header(), "Content-Type")
 	}
 
+	if r.Method != http.MethodHead {
+		if err := alignContent(r, content, size, sendStart); err != nil {
+			http.Error(w, "could not seek to the start of the response: "+err.Error(), http.StatusInternalServerError)
+			return
+		}
+	}
+
 	w.WriteHeader(code)
 
 	if r.Method != http.MethodHead {
 		io.CopyN(w, content, sendSize)
 	}
+}
+
+// alignContent makes content start at sendStart, the offset of the first byte
+// that is sent. Callers position content at the first range listed in the Range
+// header, before the size is known and before preconditions are evaluated. The
+// response can start elsewhere: the first listed range may not overlap the
+// content, or the Range header is ignored altogether (If-Range mismatch, ranges
+// that add up to more than the content).
+func alignContent(r *http.Request, content io.Reader, size, sendStart int64) error {
+	current := int64(0)
+	if ranges, err := parseRangeWithoutLength(r.Header.Get("Range")); err == nil && len(ranges) > 0 {
+		current = ranges[0].From
+		if current < 0 {
+			current = max(size+current, 0)
+		}
+	}
+	if current == sendStart {
+		return nil
+	}
+	if seeker, ok := content.(io.Seeker); ok {
+		_, err := seeker.Seek(sendStart, io.SeekStart)
+		return err
+	}
+	if current < sendStart {
+		_, err := io.CopyN(io.Discard, content, sendStart-current)
+		return err
+	}
+	return errors.New("content is not seekable")
 }
 
 // scanETag determines if a syntactically valid ETag is present at s. If so,
